@@ -205,8 +205,19 @@ func runC14(r *Report, tier string) {
 						}
 						return
 					}
-					s := t.String()
-					if !(strings.Contains(s, "len(res<") && strings.Contains(s, "EC2>") && (strings.Contains(s, "call<curveSize>") || strings.Contains(s, "Params>"))) {
+					// a length of something derived from the EC2 accessor, compared with
+					// something derived from the curve-size function
+					hasLen := t.contains(func(u *Term) bool {
+						return u.Op == "len" && u.Args[0].contains(func(w *Term) bool { return w.Op == "call" && strings.HasSuffix(w.S, ").EC2") })
+					})
+					hasSize := t.contains(func(u *Term) bool {
+						if u.Op != "call" {
+							return false
+						}
+						f := P.calleeOfTerm(u)
+						return f != nil && f.Signature.Recv() == nil && len(f.Params) == 1 && isNamed(f.Params[0].Type(), cosePath, "Curve") && f.Signature.Results().Len() == 1 && f.Signature.Results().At(0).Type().String() == "int"
+					})
+					if !hasLen || !hasSize {
 						return
 					}
 					n++
@@ -541,7 +552,7 @@ func mutC14() []mutant {
 		{Name: "derive maps P-384 to ES512", File: "key.go", Rule: "R14.2",
 			Old: "\t\tcase CurveP384:\n\t\t\treturn AlgorithmES384, nil", New: "\t\tcase CurveP384:\n\t\t\treturn AlgorithmES512, nil"},
 		{Name: "padding applied to x only", File: "key.go", Rule: "R14.3",
-			Old: "\t\t\tif 0 < len(y) && len(y) < size {\n\t\t\t\ttmp[KeyLabelEC2Y] = append(make([]byte, size-len(y), size), y...)\n\t\t\t}\n", New: ""},
+			Old: "\t\t\tif 0 < len(y) && len(y) < size {\n\t\t\t\ttmp[KeyLabelEC2Y] = append(make([]byte, size-len(y), size), y...)\n\t\t\t}\n", New: "\t\t\t_ = y\n"},
 		{Name: "padding one byte short", File: "key.go", Quick: true, Rule: "R14.3",
 			Old: "\t\t\t\ttmp[KeyLabelEC2X] = append(make([]byte, size-len(x), size), x...)", New: "\t\t\t\ttmp[KeyLabelEC2X] = append(make([]byte, size-len(x)-1, size), x...)"},
 		{Name: "y padding guarded by the length of x", File: "key.go", Rule: "R14.3",
